@@ -6,6 +6,7 @@ import MTVerif.Driver.Codec
 import MTVerif.Model.TdSize
 import MTVerif.Model.Witness
 import MTVerif.Model.Rewrite
+import MTVerif.Model.Trigger
 namespace MT
 open Sexp
 
@@ -56,6 +57,18 @@ def handle (st : DState) (req : Sexp) : Except String (DState × Sexp) :=
       .ok (st, sexpOfTy (mkUnion (← ts.mapM tyOf)))
   | .list [.atom "rewrite", .list rs, t] => do
       .ok (st, sexpOfTy (rewriteChain st.H (← rs.mapM rwOf) (← tyOf t)))
+  | .list [.atom "trig", r, t] => do
+      .ok (st, sexpOfBool ((← tyOf t).trig (← rwOf r)))
+  | .list [.atom "normal", t] => do
+      .ok (st, sexpOfBool (← tyOf t).normal)
+  | .list [.atom "hierOk"] =>
+      -- the class-table hypotheses of the C07 theorems, decided on the concrete table
+      let cs := st.hier.map (·.1)
+      let H := st.H
+      let refl := cs.all (fun c => H.sub c c)
+      let base := cs.all (fun c => match H.bases c with | [b] => H.sub c b | _ => true)
+      let trans := cs.all (fun a => (H.mro a).all (fun b => (H.mro b).all (fun c => H.sub a c)))
+      .ok (st, sexpOfBool (refl && base && trans))
   | .list [.atom "tdOk", k, t] => do
       .ok (st, sexpOfBool ((← tyOf t).tdOk (← natOf k)))
   | .list [.atom "hasTD", t] => do
